@@ -28,7 +28,11 @@ for p in props:
         level_claimed=dict(
             category="other",
             text=("Static analysis: decides, for every input/history, the structural clauses of the property that are "
-                  "visible on all paths of the anchored code. " + mod.EXPLANATION + " Not decided: " + mod.NOT_DECIDED),
+                  "visible on all paths of the anchored code. " + mod.EXPLANATION +
+                  " In addition (rule .api) every option default and every refusal (exception type under its chain of guards) of the "
+                  "functions this property is anchored in equals the census sa/contract.json taken on the confirmed tree, every "
+                  "accepted option is read, and same-named options are handed on in package-internal calls."
+                  " Not decided: " + mod.NOT_DECIDED),
             design_ref=f"DESIGN.md section 3, {pid}",
         ),
         level_note="Trusted base: CPython ast, numpy / python semantics named in the rules; "
